@@ -57,12 +57,12 @@
 (***************************************************************************)
 EXTENDS Integers, Sequences, SequencesExt, FiniteSets, TLC, Json
 
-CONSTANTS Families,  \* subset of {"wire", "mix2", "mix3"}: which vector families Init enumerates
+CONSTANTS Families,  \* subset of {"wire", "frac", "mix2", "mix3"}: which vector families Init enumerates
           Big,       \* FALSE: quick bound, TRUE: thorough bound
           Faithful   \* TRUE: views as the code is known to compute them (deviation successors)
 
 VARIABLES vid,       \* index of the vector in VecSeq (what the edge dump carries; VecSeq itself is printed once)
-          vec,       \* the vector [cfg |-> sampler configuration, trace |-> abstract trace]
+          vec,       \* the vector [cfg |-> sampler configuration, trace |-> abstract trace, fam |-> family]
           enc,       \* the encoding that was ingested (NoEnc before)
           res,       \* "pending" | "agree" | "differ"
           act
@@ -75,6 +75,7 @@ Absent == [k |-> "abs", n |-> 0, s |-> ""]
 S(x)   == [k |-> "s",   n |-> 0, s |-> x]
 B(x)   == [k |-> "b",   n |-> IF x THEN 1 ELSE 0, s |-> ""]
 N(t)   == [k |-> "n",   n |-> t, s |-> ""]          \* t in tenths
+NF(t)  == [k |-> "nf",  n |-> t, s |-> ""]          \* rule Values only: the whole number t/10 written as a float literal ("2.0")
 
 Integral(t) == t % 10 = 0
 IntVal(t)   == t \div 10
@@ -294,7 +295,21 @@ WireCfgs ==
 \* a single span that is the root, or (quick bound: for one number only) a span whose root has not arrived
 WireTraces == {[spans |-> << [f |-> v, g |-> Absent] >>, root |-> 1] : v \in Nums}
               \cup {[spans |-> << [f |-> v, g |-> Absent] >>, root |-> 0] : v \in (IF Big THEN Nums ELSE {N(50)})}
-WireVecs == {[cfg |-> c, trace |-> t] : c \in WireCfgs, t \in WireTraces}
+WireVecs == {[cfg |-> c, trace |-> t, fam |-> "wire"] : c \in WireCfgs, t \in WireTraces}
+
+(* Rule VALUES of every class (fractional, negative fractional, whole number *)
+(* written as a float, numeric string, plain and negative integer) against  *)
+(* field values at the truncation boundary of those thresholds (trunc(v),   *)
+(* trunc(v) + 1, their negatives, the threshold itself) in every numeric    *)
+(* wire type: a comparison that converts the rule value to the Go type of   *)
+(* the FIELD (int64(2.5) = 2) decides `f >= 2.5` differently for f = 2 sent *)
+(* as an integer and f = 2 sent as JSON.                                    *)
+FracCondVals == {N(25), N(-25), NF(20), S("2")}
+                \cup (IF Big THEN {N(5), N(20), N(-20), NF(-20)} ELSE {})
+FracCfgs == {RulesCfg("trace", << Cond(FF, op, dt, cv, <<>>) >>, <<>>) : op \in CmpOps, dt \in {"none", "int", "float"}, cv \in FracCondVals}
+FracNums == {N(20), N(30), N(-20)} \cup (IF Big THEN {N(-30), N(0), N(25), N(10)} ELSE {})
+FracTraces == {[spans |-> << [f |-> v, g |-> Absent] >>, root |-> 1] : v \in FracNums}
+FracVecs == {[cfg |-> c, trace |-> t, fam |-> "frac"] : c \in FracCfgs, t \in FracTraces}
 
 \* several spans: order, mixed paths, mixed wire types of the same or different numbers
 MixCfgs ==
@@ -313,12 +328,12 @@ MixSpans == {[f |-> a, g |-> Absent] : a \in MixVals}
             \cup (IF Big THEN {[f |-> Absent, g |-> N(50)], [f |-> S("a"), g |-> N(10000000)]} ELSE {})
 HasNum(sp) == sp.f.k = "n" \/ sp.g.k = "n"
 Mix2Traces == {[spans |-> <<a, b>>, root |-> r] : a \in MixSpans, b \in MixSpans, r \in (IF Big THEN {0, 1, 2} ELSE {0, 1})}
-Mix2Vecs == {[cfg |-> c, trace |-> t] : c \in MixCfgs, t \in {x \in Mix2Traces : HasNum(x.spans[1]) \/ HasNum(x.spans[2])}}
+Mix2Vecs == {[cfg |-> c, trace |-> t, fam |-> "mix2"] : c \in MixCfgs, t \in {x \in Mix2Traces : HasNum(x.spans[1]) \/ HasNum(x.spans[2])}}
 Mix3Spans == {[f |-> a, g |-> Absent] : a \in {N(50), N(10000000)}}
 Mix3Traces == {[spans |-> <<a, b, c>>, root |-> r] : a \in Mix3Spans, b \in Mix3Spans, c \in {[f |-> S("a"), g |-> Absent]} \cup Mix3Spans, r \in {0, 2}}
 Mix3Cfgs == {RulesCfg("trace", << Cond(FF, "=", "none", N(50), <<>>) >>, <<Fld("f")>>),
              DynCfg(<<Fld("f"), RFld("f")>>, TRUE)}
-Mix3Vecs == {[cfg |-> c, trace |-> t] : c \in Mix3Cfgs, t \in Mix3Traces}
+Mix3Vecs == {[cfg |-> c, trace |-> t, fam |-> "mix3"] : c \in Mix3Cfgs, t \in Mix3Traces}
 
 \* paths and msgpack widths per family: the single-span family has every
 \* width and every path; the multi-span families one width per Go type
@@ -329,11 +344,17 @@ MixPaths == {<<"jsonBatch", FALSE>>, <<"mpBatch", FALSE>>, <<"mpBatch", TRUE>>, 
 Mix3Ws == {"i64", "u64", "f32", "jnum", "odbl"}
 Mix3Paths == {<<"jsonBatch", FALSE>>, <<"mpBatch", FALSE>>, <<"mpEvent", TRUE>>, <<"otlp", FALSE>>}
 
-FamilyOf(v) == IF Len(v.trace.spans) = 1 THEN "wire" ELSE IF Len(v.trace.spans) = 2 THEN "mix2" ELSE "mix3"
+FracWs == IF Big THEN WireWs ELSE {"i64", "u64", "f32", "f64", "jnum", "oint", "odbl"}
+FracPaths == IF Big THEN AllPaths
+             ELSE {<<b, FALSE>> : b \in Bases} \cup {<<"mpBatch", TRUE>>, <<"otlp", TRUE>>}
+
+FamilyOf(v) == v.fam
 Encs(v) == CASE FamilyOf(v) = "wire" -> EncsOf(v.trace, AllPaths, WireWs)
+             [] FamilyOf(v) = "frac" -> EncsOf(v.trace, FracPaths, FracWs)
              [] FamilyOf(v) = "mix2" -> EncsOf(v.trace, MixPaths, MixWs)
              [] FamilyOf(v) = "mix3" -> EncsOf(v.trace, Mix3Paths, Mix3Ws)
 Vecs == (IF "wire" \in Families THEN WireVecs ELSE {})
+        \cup (IF "frac" \in Families THEN FracVecs ELSE {})
         \cup (IF "mix2" \in Families THEN Mix2Vecs ELSE {})
         \cup (IF "mix3" \in Families THEN Mix3Vecs ELSE {})
 
